@@ -219,7 +219,7 @@ def gen_cases(rng, tier):
                         add({"kind": "disk", "cls": "disk-layout-pair", "others": [],
                              "devs": [_disk(rng, "sda", l1, w1, "distinct", 0), _disk(rng, "sda1", l2, w2, "distinct", 1)]})
     # ---- /proc/net/dev
-    for _ in range(110 * N):
+    for _ in range(90 * N):
         n = rng.choice([0, 1, 1, 2, 3, 5, 8, 12])
         mode = rng.choice(["rand", "rand", "distinct", "zeros"])
         ifs = [_nic(rng, nm, mode) for nm in _uniq(rng, NIC_NAMES, n)]
@@ -248,7 +248,7 @@ def gen_cases(rng, tier):
                 lines[-1] = lines[-1].rstrip()
         add({"kind": "netraw", "cls": "net-malformed", "content": "\n".join(lines).encode().hex()})
     # ---- /proc/diskstats
-    for _ in range(150 * N):
+    for _ in range(120 * N):
         devs, others = _disk_file(rng, allow24=True)
         if not _fs_safe(devs):
             continue
